@@ -83,3 +83,25 @@ def validate_layout_records(run, recs, label):
 def show_inconclusive(run, n=5):
     for r in run.inconclusive[:n]:
         run.log("inconclusive: %s" % str(r)[:400])
+
+
+def corrupting():
+    return bool(os.environ.get("VERIF_CORRUPT"))
+
+
+def corrupt_rows(run, rows):
+    """Binding demonstration (VERIF_CORRUPT=1): change one expected value of the oracle; the replay must reject it."""
+    if not corrupting():
+        return
+    if run.prop == "C38":
+        # the specification now "claims" a larger maximum body for one SignAndEncrypt configuration
+        g = [r for r in rows if "table" not in r and r["mode"] == "SignAndEncrypt" and r["cs"] == 8192 and r["pol"] == "Basic256"]
+        for r in g:
+            r["maxBody"] += 16
+        run.log("VERIF_CORRUPT: MaxBody of %d rows (Basic256/SignAndEncrypt/8192) raised by 16" % len(g))
+        return
+    for r in rows:
+        if "table" not in r and r["mode"] == "Sign" and len(r["chunks"]) == 2:
+            r["chunks"][0]["sig"] += 1      # the specification now "expects" a longer signature
+            run.log("VERIF_CORRUPT: signature length of row %s/%s cs=%d n=%d changed" % (r["pol"], r["mode"], r["cs"], r["n"]))
+            return
